@@ -4,6 +4,7 @@ import (
 	"encoding/json"
 	"fmt"
 	"os"
+	"os/exec"
 	"path/filepath"
 	"sort"
 	"strings"
@@ -179,8 +180,14 @@ func checkC10(o options) int {
 		if i == 0 {
 			args = append(args, "--isolate-out", isoFile, "--isolate-cap", fmt.Sprint(isoCap))
 		}
-		// every child but the first gets a heap layout and GC rhythm of its own
-		return inst.bin, args, []string{fmt.Sprintf("VERIF_BALLAST=%d", i*11)}, of
+		// every child but the first gets a heap layout and GC rhythm of its own,
+		// and the children differ in the number of Ps (a result must not depend
+		// on how many CPUs the process may use)
+		env := []string{fmt.Sprintf("VERIF_BALLAST=%d", i*11)}
+		if i > 0 {
+			env = append(env, fmt.Sprintf("GOMAXPROCS=%d", []int{1, 2, 3, 16}[i%4]))
+		}
+		return inst.bin, args, env, of
 	})
 	var canon []c10Stats
 	for _, r := range cres {
@@ -342,7 +349,7 @@ func checkC10(o options) int {
 		pkeys = append(pkeys, k)
 	}
 	sort.Strings(pkeys)
-	var translationBad []string
+	var translationBad, translationBadKeys []string
 	for _, k := range pkeys {
 		e := pristAll[k]
 		if len(e.Hashes) > 1 {
@@ -368,6 +375,7 @@ func checkC10(o options) int {
 			translationChecked++
 			if h != e.Hashes[0] {
 				translationBad = append(translationBad, fmt.Sprintf("%s (session %d %s %s)", k, e.Session, e.Source, e.Key))
+				translationBadKeys = append(translationBadKeys, k)
 			}
 		}
 	}
@@ -514,6 +522,52 @@ func checkC10(o options) int {
 		logf("violation class %s: %s", f.class, f.what)
 		exit = 1
 	}
+	// A key on which the uninstrumented children (which repeat every session
+	// several times) and the instrumented canonical child disagree: either the
+	// instrumentation changed behaviour (my bug) or the result depends on what
+	// the process did before. The key evaluated ALONE in a fresh process of each
+	// build decides: equal there, the insertions are innocent and the difference
+	// is a violation seen in the uninstrumented library itself.
+	if exit == 0 && len(translationBad) > 0 && len(knownLines) == 0 {
+		e := pristAll[translationBadKeys[0]]
+		kout, kerr := run(scratch, nil, inst.bin, "c10-key", "--seed", fmt.Sprint(e.Session), "--source", e.Source, "--obs", e.Key)
+		if kerr == nil {
+			evalOne := func(bin string) string {
+				cmd := exec.Command(bin, "c10-one")
+				cmd.Stdin = strings.NewReader(kout)
+				b, _ := cmd.Output()
+				var r struct {
+					A string `json:"a"`
+				}
+				json.Unmarshal(b, &r)
+				return r.A
+			}
+			ai, ap := evalOne(inst.bin), evalOne(prist.bin)
+			if ai != "" && ai == ap {
+				class := "disagree-history|uninstrumented-library|rule=" + ruleOfRendering(ai, firstOr(e.Renderings, ""))
+				if kf := isKnown(known, class); kf != nil {
+					knownLines = append(knownLines, fmt.Sprintf("KNOWN-FINDING: property=C10 %s (%s)", kf.What, class))
+				} else {
+					dst := filepath.Join(outDir, fmt.Sprintf("C10-seed%d-realhistory-%s.json", o.seed, translationBadKeys[0]))
+					var key map[string]interface{}
+					d := json.NewDecoder(strings.NewReader(kout))
+					d.UseNumber()
+					d.Decode(&key)
+					writeJSONFile(dst, map[string]interface{}{"format": "verif-c10-real-history/1", "property": "C10", "class": class, "replayable": false,
+						"note":                     "the UNINSTRUMENTED library, running this session several times in one process, gave a different result for these texts than the same texts evaluated alone in a fresh process (where the instrumented and the uninstrumented build agree): the result depends on what the process did before",
+						"key":                      key,
+						"alone_in_a_fresh_process": ai,
+						"in_the_repeating_process": firstOr(e.Renderings, ""),
+						"session_seed":             fmt.Sprint(e.Session), "session_source": e.Source, "repetitions_per_session": pristReps, "verif_seed": o.seed, "repo_tree": repoTree()})
+					violationLines = append(violationLines, fmt.Sprintf("VIOLATION property=C10 replay=%s", dst))
+					logf("violation class %s: uninstrumented children disagree with the isolated evaluation", class)
+					unknownCount++
+					exit = 1
+				}
+				translationBad = nil
+			}
+		}
+	}
 	if exit == 0 && len(translationBad) > 0 {
 		// only meaningful when no order-dependence is in play: the pristine run
 		// is single-valued but differs from the instrumented canonical run
@@ -568,6 +622,13 @@ func escalatedClass(out string) string {
 		return l[:j]
 	}
 	return ""
+}
+
+func firstOr(l []string, d string) string {
+	if len(l) > 0 {
+		return l[0]
+	}
+	return d
 }
 
 func asList(v interface{}) []interface{} {
